@@ -519,6 +519,20 @@ def discharge(P, s):
                         if op == "Le" and _is_len_minus(y, buf, st) and _is_sum_of(en, st, x):
                             return ("len-guard", "dominated by L <= len(buf) - n for the slice buf[n..n+L]")
     if k == "call:index" and site is not None and len(site.args) == 2:
+        # constant range into a buffer of known constant length (`let mut b = [0u8; 64]; b[..32]`, `b[32..]`)
+        rgc = B.peel(strip_sites(site.args[1]))
+        if rgc.op == "agg" and rgc.a[0][0] == "adt" and rgc.a[0][1] in ("RangeTo", "RangeFrom", "Range", "RangeFull") and all(B._const_int(o) is not None for o in rgc.a[1]):
+            try:
+                tl_ = B._total_len(B.nf(ev, site.args[0]))
+                lf_ = B._lin(tl_) if tl_ is not None else None
+            except Exception:
+                lf_ = None
+            if lf_ is not None and not any(lf_[1].values()):
+                L_ = lf_[0]
+                cs_ = [B._const_int(o) for o in rgc.a[1]]
+                if all(0 <= c_ <= L_ for c_ in cs_) and cs_ == sorted(cs_):
+                    return ("const", "constant range %s of a buffer of known length %d" % (cs_, L_))
+    if k == "call:index" and site is not None and len(site.args) == 2:
         # `buf[..min(n, buf.len())]` / `buf[a..min(b, buf.len())]`: the end is clamped to the length
         rg_ = B.peel(strip_sites(site.args[1]))
         if rg_.op == "agg" and rg_.a[0][0] == "adt" and rg_.a[0][1] == "RangeTo" and len(rg_.a[1]) == 1:
